@@ -193,7 +193,13 @@ std::string h_gen(Src& s) {
 
 // ------------------------------------------------------------------ runtime model
 using namespace tbb::flow;
-struct Msg { uint64_t id = 0, mask = 0; uint32_t seq = 0; };
+// a message is destroyed inside the graph: counted when it happens on a library worker thread (the harness's own threads keep local copies)
+static long g_msg_dtors_worker = 0;
+struct Msg {
+    uint64_t id = 0, mask = 0; uint32_t seq = 0;
+    Msg() = default; Msg(const Msg&) = default; Msg& operator=(const Msg&) = default;
+    ~Msg() { if (vs_active() && !vs_is_scenario_thread(vs_self())) g_msg_dtors_worker++; }
+};
 typedef std::tuple<Msg, Msg> Msg2;
 struct MsgLess { bool operator()(const Msg& a, const Msg& b) const { return a.id < b.id; } };
 static inline uint64_t mix(uint64_t x) { x ^= x >> 30; x *= 0xbf58476d1ce4e5b9ull; x ^= x >> 27; x *= 0x94d049bb133111ebull; x ^= x >> 31; return x; }
@@ -621,10 +627,11 @@ void h_run(Case& c) {
     for (int e = 1; e < ext; e++) tids.push_back(vs_thread_start(ext_thread, (void*)(intptr_t)e));
     run_thread(0);
     for (int t : tids) vs_thread_join(t);
-    uint64_t inv = vs_now(); G->wait_for_all(); uint64_t ret = vs_now();
+    uint64_t inv = vs_now(); G->wait_for_all(); uint64_t ret = vs_now(); long dtors0 = g_msg_dtors_worker;
     check_wait(inv, ret, true);
     long enters = g_enters;
     vs_wait_quiescent();
+    if (g_msg_dtors_worker != dtors0) vs_violation("WAIT-TOO-EARLY", "%ld message object(s) were destroyed by worker threads inside the graph after the final wait_for_all had returned (a task outlived the wait)", g_msg_dtors_worker - dtors0);
     if (g_enters != enters || g_busy) vs_violation("BODY-AFTER-IDLE", "%ld node bodies started after the final wait_for_all had returned with no external activity", g_enters - enters);
     final_evaluate();
     vs_end();
